@@ -270,14 +270,15 @@ func runC01(c *core.Ctx) {
 	}
 
 	c.Rule("C01.uint", "sibling agreement across the generic algorithms: wherever a Kind_Int arm calls AsInt (datamodel.Copy, datamodel.DeepEqual, dagcbor marshal, dagcbor.EncodedLength) the function also probes the node for datamodel.UintNode, so that unsigned values beyond int64 (which basicnode and dag-cbor support) are not failed or panicked on", 4)
-	for _, spec := range []struct{ rel, name string }{{"datamodel", "Copy"}, {"datamodel", "DeepEqual"}, {"codec/dagcbor", "marshal"}, {"codec/dagcbor", "EncodedLength"}} {
+	for _, spec := range []struct{ rel, name string }{{"datamodel", "Copy"}, {"datamodel", "DeepEqual"}, {"codec/dagcbor", "Marshal"}, {"codec/dagcbor", "EncodedLength"}} {
 		fn := p.Func(spec.rel, "", spec.name)
 		if fn == nil {
 			c.Undecided(spec.rel+"."+spec.name, "-", "not found")
 			continue
 		}
 		callsAsInt, probes := false, false
-		core.Instrs(fn, func(in ssa.Instruction) {
+		// the exported algorithm together with the unexported workers it is built from (core/region.go)
+		core.InstrsR(fn, func(in ssa.Instruction) {
 			switch x := in.(type) {
 			case ssa.CallInstruction:
 				if x.Common().IsInvoke() && x.Common().Method.Name() == "AsInt" {
